@@ -7,7 +7,9 @@ _cache = {}
 
 
 def _discharge(run, obls, what):
-    if obls is None:
+    if not obls:
+        if obls is not None and not any(what.split("(")[0].strip("_ ") in u for u in run.undecided):
+            run.notes.append("no obligation generated for %s (function undecided or absent): decided by the bounded stand-in" % what)
         return
     n = 0
     canary_ok = None
@@ -69,3 +71,8 @@ def warnings(run):
 
 def init_state(run):
     pass
+
+
+def registry(run, tag):
+    from contracts import system_edit as SE
+    _discharge(run, [o for o in (SE.obligations(run, Source()) or []) if o.get("kind") == "canary" or tag in o.get("tags", [])], "registry operations")
